@@ -1,6 +1,6 @@
 import os
 # repairs the model expects: "cachecopy" (sector cache holds private copies), "rollbackchecked" (StoreSector rollback is conditional)
-VOLUMES_FIXES = "cachecopy rollbackchecked syncserial resizelocked"
+VOLUMES_FIXES = "cachecopy rollbackchecked syncserial resizelocked removeused"
 # second engine: the `mdm` wire harness (real host, real VolumeManager on real volume files, attacked over RHP2/RHP3)
 # observes that the RPC handlers follow the upload protocol the volumes model assumes: when an upload-carrying RPC
 # reports success, no slot holding a referenced sector is still waiting for its fsync (monitor c02/rpc_commit_synced/<site>).
